@@ -1134,9 +1134,64 @@ def _string_push_str(I, a, d):
     return UNIT
 
 
+class Utf8ErrorObj:
+    """std::str::Utf8Error / FromUtf8Error: remembers the offending bytes so that valid_up_to can be answered."""
+    rust_type = "Utf8Error"
+
+    def __init__(self, data):
+        self.data = data
+
+    def display(self, I):
+        return SBytes((sb.Atom("opaque", ("utf8err",)),))
+
+
 @T.path("std::string::String::from_utf8", "alloc::string::String::from_utf8")
 def _string_from_utf8(I, a, d):
-    return OK(mk_string(as_sbytes(a[0])))
+    from .fs import utf8_check
+    data = as_sbytes(a[0])
+    if utf8_check(I, data):
+        return OK(mk_string(data))
+    return ERR(Utf8ErrorObj(data))
+
+
+@T.path("core::str::from_utf8", "std::str::from_utf8", "core::str::converts::from_utf8")
+def _str_from_utf8(I, a, d):
+    from .fs import utf8_check
+    data = as_sbytes(a[0])
+    if utf8_check(I, data):
+        return OK(BytesRef(data, "str"))
+    return ERR(Utf8ErrorObj(data))
+
+
+@T.path("core::str::Utf8Error::valid_up_to", "std::str::Utf8Error::valid_up_to", "core::str::error::Utf8Error::valid_up_to")
+def _utf8error_valid_up_to(I, a, d):
+    """Length of the longest valid prefix.  Decided for byte strings made of concrete runs and text atoms (valid
+    UTF-8 by axiom, each ending on a character boundary); symbolic damage inside the prefix is inconclusive."""
+    e = peel(a[0])
+    if not isinstance(e, Utf8ErrorObj):
+        raise Inconclusive("valid_up_to on %r" % (e,))
+    pos = 0
+    run = b""
+    for seg in e.data.segs:
+        if isinstance(seg, bytes):
+            run += seg
+            continue
+        try:
+            run.decode("utf-8")
+        except UnicodeDecodeError as ex:
+            return sb._add(pos, ex.start)
+        if not isinstance(seg, sb.Atom):
+            raise Inconclusive("Utf8Error::valid_up_to over symbolic damage")
+        ln = sb.seg_len(seg)
+        if ln is None:
+            raise Inconclusive("Utf8Error::valid_up_to: text atom of unknown length")
+        pos = sb._add(sb._add(pos, len(run)), ln)
+        run = b""
+    try:
+        run.decode("utf-8")
+    except UnicodeDecodeError as ex:
+        return sb._add(pos, ex.start)
+    raise Inconclusive("Utf8Error for bytes that look valid")
 
 
 @T.path("core::str::to_string", "str::to_string", "core::str::to_owned", "str::to_owned", "std::str::to_owned")
